@@ -124,15 +124,20 @@ def zfill (k : Nat) (m : Nat) : Str :=
   let ds := natDigits m
   List.replicate (k - ds.length) '0' ++ ds
 
+/-- `(m, e)`: the `p+1` mantissa digits (as a number) and the decimal exponent printed by
+    `'%.{p}e' % (n/d)`: `m·10^(e-p)` is `n/d` rounded half-even to `p+1` significant digits
+    (the carry `9.9996 → 1.000e+01` included) -/
+def fmtEParts (p : Nat) (n d : Nat) : Nat × Int :=
+  if n = 0 then (0, 0)
+  else
+    let e0 := log10Floor n d
+    let sh : Int := p - e0
+    let m0 := if sh ≥ 0 then roundHalfEven (n * 10 ^ sh.toNat) d else roundHalfEven n (d * 10 ^ (-sh).toNat)
+    if m0 ≥ 10 ^ (p + 1) then (m0 / 10, e0 + 1) else (m0, e0)
+
 /-- body (without sign and padding) of `'%.{p}e' % |x|` for x = n/d ≥ 0 -/
 def fmtEBody (p : Nat) (n d : Nat) : Str :=
-  let (m, e) : Nat × Int :=
-    if n = 0 then (0, 0)
-    else
-      let e0 := log10Floor n d
-      let sh : Int := p - e0
-      let m0 := if sh ≥ 0 then roundHalfEven (n * 10 ^ sh.toNat) d else roundHalfEven n (d * 10 ^ (-sh).toNat)
-      if m0 ≥ 10 ^ (p + 1) then (m0 / 10, e0 + 1) else (m0, e0)
+  let (m, e) : Nat × Int := fmtEParts p n d
   let ds := zfill (p + 1) m
   let mant := match ds with
     | [] => []
